@@ -8,7 +8,7 @@ import gen
 from core import fr, w_rat, w_rats, p_rats, cmp_exact, cmp_budget, call_impl
 from _c17_common import norm_res, cmp_seq, cmp_rows, w_rows, p_rows, DYADIC_DTS
 
-PROP_MODULES = ['C03', 'C03a', 'C03Gen']
+PROP_MODULES = ['C03', 'C03a', 'C03Gen', 'C03Compose']
 
 RULE = ("spectra: records n in 2..400 (quick) / 3000 of shapes hat/noise/sine/step/spike/int/1e+-6/zero, dt dyadic or in 10^[-3,0], 1..6 periods "
         "per call with T/dt log-uniform in [0.2, 2e4] or in {0.2,1,5.9,6,6.1,20}, optional leading 0, xi in {0,1e-3,0.05,0.3,0.7,0.99} u U[0,1), "
@@ -209,7 +209,7 @@ def energy(ctx, a, dt, periods, xi, kind, v, base_inputs):
     from eqsig import sdof
     n = len(a)
     parr = np.array(periods, dtype=float)
-    asig = eqsig.AccSignal(a, dt)
+    asig = ctx.aged(eqsig.AccSignal, a, dt)
     inputs = dict(base_inputs)
     r_uke = call_impl(sdof.calc_resp_uke_spectrum, asig, periods=periods, xi=xi)
     r_ie = call_impl(sdof.calc_input_energy_spectrum, asig, periods=parr, xi=xi)
@@ -339,7 +339,7 @@ def object_api(ctx):
             ctx.hist(f'object/min_dt_ratio={ratio}')
             ctx.count_case(('obj', a.tobytes(), dt, tuple(rt), ratio, xi), gen.nontrivial_record(a),
                            sample={'fn': 'AccSignal.s_a/s_v/s_d', 'n': n, 'dt': dt, 'response_times': rt, 'min_dt_ratio': ratio} if ci < 2 else None)
-            asig = eqsig.AccSignal(a, dt, response_times=np.array(rt))
+            asig = ctx.aged(eqsig.AccSignal, a, dt, response_times=np.array(rt))
             calls.clear()
             res = call_impl(lambda: (asig.gen_response_spectrum(xi=xi, min_dt_ratio=ratio), (asig.s_d, asig.s_v, asig.s_a))[1])
             took_interp = 'interp' in calls
@@ -425,7 +425,7 @@ def intensities(ctx):
         n = gen.log_int(rng, 2, 300 if ctx.tier == 'quick' else 2000)
         dt = rng.choice([0.01, 0.005, 0.02])
         kind, a = record(rng, n, dt)
-        asig = eqsig.AccSignal(a, dt)
+        asig = ctx.aged(eqsig.AccSignal, a, dt)
         xi = rng.choice([0.05, 0.02, 0.2])
         pchoice = rng.choice(['default', 'custom', 'custom', 'single', 'pair'])
         periods = {'default': None, 'custom': np.sort(np.array([rng.uniform(0.02, 3) for _ in range(rng.randint(3, 12))])),
